@@ -364,3 +364,948 @@ Proof.
   - apply in_app_iff in I. destruct I as [I|[<-|[]]]; [|lia].
     destruct (partition_in _ _ _ P1 I) as (_ & B1 & _ & E1). lia.
 Qed.
+
+(* ================================================================================================ Part B *)
+(* ------------------------------------------------------------------------------------------------ the reservation log *)
+Definition covers (r : resv) (x : Z) : Prop := r_start r <= x < r_start r + r_delta r.
+
+(* newest first: the head reservation ends at n, each one starts where the previous one ended, the oldest starts at 0 *)
+Fixpoint lchain (l : list resv) (n : Z) : Prop :=
+  match l with
+  | [] => n = 0
+  | r :: l' => r_start r + r_delta r = n /\ 0 <= r_delta r /\ lchain l' (r_start r)
+  end.
+
+Lemma lchain_nonneg l n : lchain l n -> 0 <= n.
+Proof.
+  revert n; induction l as [|r l IH]; intros n H; cbn [lchain] in H; [lia|].
+  destruct H as (E & D & H). specialize (IH _ H). lia.
+Qed.
+
+Lemma lchain_in l n r : lchain l n -> In r l -> 0 <= r_start r /\ 0 <= r_delta r /\ r_start r + r_delta r <= n.
+Proof.
+  revert n; induction l as [|r0 l IH]; intros n H I; [destruct I|].
+  cbn [lchain] in H. destruct H as (E & D & H). pose proof (lchain_nonneg _ _ H) as N.
+  destruct I as [<-|I]; [lia|]. destruct (IH _ H I) as (A & B & C). lia.
+Qed.
+
+Lemma lchain_covers_unique l n r r' x : lchain l n -> In r l -> In r' l -> covers r x -> covers r' x -> r = r'.
+Proof.
+  revert n; induction l as [|r0 l IH]; intros n H I I' C C'; [destruct I|].
+  cbn [lchain] in H. destruct H as (E & D & H). unfold covers in *.
+  destruct I as [<-|I]; destruct I' as [<-|I'].
+  - reflexivity.
+  - destruct (lchain_in _ _ _ H I') as (_ & _ & B). lia.
+  - destruct (lchain_in _ _ _ H I) as (_ & _ & B). lia.
+  - eapply IH; eauto.
+Qed.
+
+Lemma lchain_cover_exists l n x : lchain l n -> 0 <= x < n -> exists r, In r l /\ covers r x.
+Proof.
+  revert n; induction l as [|r0 l IH]; intros n H X; cbn [lchain] in H; [lia|].
+  destruct H as (E & D & H).
+  destruct (Z_le_gt_dec (r_start r0) x) as [Le|Gt].
+  - exists r0. split; [left; reflexivity | unfold covers; lia].
+  - destruct (IH _ H ltac:(lia)) as (r & I & C). exists r. split; [right; exact I | exact C].
+Qed.
+
+Fixpoint rtotal (l : list resv) : Z := match l with [] => 0 | r :: l' => r_delta r + rtotal l' end.
+Lemma lchain_total l n : lchain l n -> n = rtotal l.
+Proof.
+  revert n; induction l as [|r l IH]; intros n H; cbn [lchain rtotal] in *; [exact H|].
+  destruct H as (E & D & H). specialize (IH _ H). lia.
+Qed.
+
+(* ------------------------------------------------------------------------------------------------ buffers *)
+Lemma lookup_in k l : lookup k l <> 0 -> In k (map fst l).
+Proof.
+  induction l as [|[k' o] l IH]; cbn [lookup map fst In]; [intros H; contradiction|].
+  destruct (k =? k') eqn:E; [apply Z.eqb_eq in E; left; symmetry; exact E | intros H; right; exact (IH H)].
+Qed.
+
+Lemma in_lookup k l : (forall k' o, In (k', o) l -> o <> 0) -> In k (map fst l) -> lookup k l <> 0.
+Proof.
+  induction l as [|[k' o] l IH]; cbn [lookup map fst In]; intros NZ I; [destruct I|].
+  destruct (k =? k') eqn:E.
+  - apply (NZ k' o). left; reflexivity.
+  - apply IH; [intros k2 o2 H; apply (NZ k2 o2); right; exact H|].
+    destruct I as [I|I]; [apply Z.eqb_neq in E; congruence | exact I].
+Qed.
+
+Lemma lookup_cons_other k k' o l : k <> k' -> lookup k ((k', o) :: l) = lookup k l.
+Proof. intros N. cbn [lookup]. destruct (k =? k') eqn:E; [apply Z.eqb_eq in E; contradiction | reflexivity]. Qed.
+
+Lemma lookup_cons_mono k k' o l : o <> 0 -> lookup k l <> 0 -> lookup k ((k', o) :: l) <> 0.
+Proof. intros O H. cbn [lookup]. destruct (k =? k'); assumption. Qed.
+
+(* ------------------------------------------------------------------------------------------------ agendas *)
+Definition rank (m : mop) : nat :=
+  match m with
+  | MStart | MFetch1 _ | MFetchN _ _ _ | MSizeLoad _ _ => 0
+  | MCnt _ => 1
+  | MTry _ _ _ | MStore _ _ _ => 2
+  | MWait _ _ => 3
+  | MCons _ _ => 4
+  end%nat.
+
+Fixpoint sorted (l : list mop) : Prop :=
+  match l with [] => True | m :: r => (forall m', In m' r -> (rank m <= rank m')%nat) /\ sorted r end.
+Definition inert (a : list mop) : Prop := forall m, In m a -> rank m = 0%nat.
+Definition ag_shape (a : list mop) : Prop :=
+  (exists m, a = [m] /\ rank m = 0%nat) \/ ((forall m, In m a -> (1 <= rank m)%nat) /\ sorted a).
+Definition pendingA (k : Z) (a : list mop) : Prop := exists rng o, In (MTry rng k o) a \/ In (MStore rng k o) a.
+Fixpoint cons_idxs (a : list mop) : list Z :=
+  match a with [] => [] | MCons x _ :: r => x :: cons_idxs r | _ :: r => cons_idxs r end.
+
+Lemma in_cons_idxs a x tag : In (MCons x tag) a -> In x (cons_idxs a).
+Proof.
+  induction a as [|m a IH]; intros I; [destruct I|].
+  destruct I as [->|I]; [left; reflexivity|]. specialize (IH I). destruct m; cbn [cons_idxs]; try exact IH. right; exact IH.
+Qed.
+
+Lemma cons_idxs_app a b : cons_idxs (a ++ b) = cons_idxs a ++ cons_idxs b.
+Proof. induction a as [|m a IH]; [reflexivity|]. destruct m; cbn [app cons_idxs]; try exact IH. rewrite IH. reflexivity. Qed.
+
+Lemma cons_idxs_norank a : (forall m, In m a -> rank m <> 4%nat) -> cons_idxs a = [].
+Proof.
+  induction a as [|m a IH]; intros H; [reflexivity|].
+  assert (Hm := H m (or_introl eq_refl)).
+  destruct m; cbn [cons_idxs]; try (apply IH; intros m' I; apply H; right; exact I). cbn in Hm. contradiction.
+Qed.
+
+Lemma NoDup_cons_idxs_tail m a : NoDup (cons_idxs (m :: a)) -> NoDup (cons_idxs a).
+Proof. destruct m; cbn [cons_idxs]; intros H; try exact H. inversion H; assumption. Qed.
+
+Lemma sorted_app a b : sorted a -> sorted b -> (forall x y, In x a -> In y b -> (rank x <= rank y)%nat) -> sorted (a ++ b).
+Proof.
+  induction a as [|m a IH]; intros Sa Sb H; cbn [app]; [exact Sb|].
+  cbn [sorted] in *. destruct Sa as [Sm Sa]. split.
+  - intros m' I. apply in_app_iff in I. destruct I as [I|I]; [apply Sm; exact I | apply H; [left; reflexivity | exact I]].
+  - apply IH; [exact Sa | exact Sb | intros x y Ix Iy; apply H; [right; exact Ix | exact Iy]].
+Qed.
+
+Lemma sorted_const a n : (forall m, In m a -> rank m = n) -> sorted a.
+Proof.
+  induction a as [|m a IH]; intros H; cbn [sorted]; [exact I|]. split.
+  - intros m' I. rewrite (H m (or_introl eq_refl)), (H m' (or_intror I)). apply Nat.le_refl.
+  - apply IH. intros m' I. apply H. right; exact I.
+Qed.
+
+Lemma shape_tail m a : ag_shape (m :: a) -> ag_shape a.
+Proof.
+  intros [[m0 [E R]]|[P S]].
+  - injection E as _ ->. right. split; [intros ? []|exact I].
+  - right. split; [intros m' I; apply P; right; exact I | exact (proj2 S)].
+Qed.
+
+Lemma shape_rank0_alone m a : ag_shape (m :: a) -> rank m = 0%nat -> a = [].
+Proof.
+  intros [[m0 [E R]]|[P S]] Z0.
+  - injection E as _ ->. reflexivity.
+  - specialize (P m (or_introl eq_refl)). lia.
+Qed.
+
+Lemma shape_same_rank m m' a : rank m = rank m' -> ag_shape (m :: a) -> ag_shape (m' :: a).
+Proof.
+  intros R [[m0 [E R0]]|[P S]].
+  - injection E as -> ->. left. exists m'. split; [reflexivity | congruence].
+  - right. split.
+    + intros x [<-|I]; [rewrite <- R; apply P; left; reflexivity | apply P; right; exact I].
+    + cbn [sorted] in *. rewrite <- R. exact S.
+Qed.
+
+(* the head of an agenda has the least rank *)
+Lemma shape_head_le m a x : ag_shape (m :: a) -> In x (m :: a) -> (rank m <= rank x)%nat.
+Proof.
+  intros [[m0 [E R]]|[P S]] I.
+  - injection E as -> ->. destruct I as [<-|[]]. apply Nat.le_refl.
+  - destruct I as [<-|I]; [apply Nat.le_refl | exact (proj1 S _ I)].
+Qed.
+
+Definition upd (A : nat -> list mop) (t : nat) (a : list mop) : nat -> list mop :=
+  fun t' => if Nat.eqb t' t then a else A t'.
+Lemma upd_same A t a : upd A t a t = a.
+Proof. unfold upd. rewrite Nat.eqb_refl. reflexivity. Qed.
+Lemma upd_other A t a t' : t' <> t -> upd A t a t' = A t'.
+Proof. intros N. unfold upd. destruct (Nat.eqb t' t) eqn:E; [apply Nat.eqb_eq in E; contradiction | reflexivity]. Qed.
+
+(* ------------------------------------------------------------------------------------------------ the invariant *)
+Section Invariant.
+  Variable strat shift : Z.
+  Hypothesis Hs : 0 <= shift.
+  Local Notation trig := (trigger strat shift).
+
+  (* [A t] is the agenda of thread t ([] for a thread that does not exist or has finished) *)
+  Record Inv (g : shared) (A : nat -> list mop) : Prop := {
+    (* the reservations tile [0, size) *)
+    i_chain : lchain (g_rlog g) (g_size g);
+    (* buffers are stored at most once, never with null; 0 and 1 exist from the start *)
+    i_bnodup : NoDup (map fst (g_bufs g));
+    i_bnz : forall k o, In (k, o) (g_bufs g) -> o <> 0;
+    i_b01 : lookup 0 (g_bufs g) <> 0 /\ lookup 1 (g_bufs g) <> 0;
+    (* each position is constructed at most once, in an allocated buffer, by the reservation that covers it *)
+    i_cnodup : NoDup (map gc_idx (g_cells g));
+    i_cok : forall c, In c (g_cells g) ->
+            gc_buf c <> 0 /\ exists r, In r (g_rlog g) /\ covers r (gc_idx c) /\ gc_tag c = tag_of r (gc_idx c);
+    (* obligations of a reservation: the buckets whose trigger it covers, the positions it covers *)
+    i_oalloc : forall r k, In r (g_rlog g) -> 1 <= k -> covers r (trig k) ->
+               lookup k (g_bufs g) <> 0 \/ pendingA k (A (r_tid r));
+    i_ofill : forall r x, In r (g_rlog g) -> covers r x ->
+              In x (map gc_idx (g_cells g)) \/ In (MCons x (tag_of r x)) (A (r_tid r));
+    (* what is on an agenda is justified by a reservation of that thread *)
+    i_tryj : forall t rng k o, In (MTry rng k o) (A t) \/ In (MStore rng k o) (A t) ->
+             1 <= k /\ o <> 0 /\ exists r, In r (g_rlog g) /\ r_tid r = t /\ covers r (trig k);
+    i_stnull : forall t rng k o, In (MStore rng k o) (A t) -> lookup k (g_bufs g) = 0;
+    i_sthead : forall t m rest rng k o, A t = m :: rest -> ~ In (MStore rng k o) rest;
+    i_consj : forall t x tag, In (MCons x tag) (A t) ->
+              ~ In x (map gc_idx (g_cells g)) /\
+              (exists r, In r (g_rlog g) /\ r_tid r = t /\ covers r x /\ tag = tag_of r x) /\
+              (lookup (bkt shift x) (g_bufs g) <> 0 \/ exists rng, In (MWait rng (bkt shift x)) (A t));
+    i_consnd : forall t, NoDup (cons_idxs (A t));
+    i_shape : forall t, ag_shape (A t);
+    i_fwf : forall t d tag inc, In (MFetchN d tag inc) (A t) -> 0 <= d;
+    i_waitj : forall t rng k, In (MWait rng k) (A t) -> 0 <= k /\ bucket_start shift k <= g_size g
+  }.
+
+  Lemma Inv_ext g A B : (forall t, A t = B t) -> Inv g A -> Inv g B.
+  Proof.
+    intros E I. destruct I. constructor; try assumption; intros; try rewrite <- E in *; eauto.
+  Qed.
+
+  Ltac by_tid t' t := let Et := fresh "Etid" in destruct (Nat.eq_dec t' t) as [Et|?N]; [try rewrite Et in *; rewrite ?upd_same in * | rewrite ?upd_other in * by assumption].
+
+  (* -------- the head of the agenda is dropped, shared state unchanged *)
+  Lemma inv_pop g A t m rest :
+    Inv g A -> A t = m :: rest ->
+    (forall rng k o, m = MTry rng k o -> lookup k (g_bufs g) <> 0) ->
+    (forall rng k o, m <> MStore rng k o) ->
+    (forall x tag, m <> MCons x tag) ->
+    (forall rng k, m = MWait rng k -> lookup k (g_bufs g) <> 0) ->
+    Inv g (upd A t rest).
+  Proof.
+    intros I HA HT HS HC HW.
+    assert (Sub : forall x, In x rest -> In x (A t)) by (intros x Ix; rewrite HA; right; exact Ix).
+    constructor; try (destruct I; assumption).
+    - (* oalloc *) intros r k Hr Hk Hc. destruct (i_oalloc _ _ I r k Hr Hk Hc) as [L|P]; [left; exact L|].
+      by_tid (r_tid r) t; [|right; exact P].
+      rewrite HA in P. destruct P as (rng & o & [[E|P]|[E|P]]).
+      + left. eapply HT; eauto.
+      + right. exists rng, o. left; exact P.
+      + exfalso. eapply HS; eauto.
+      + right. exists rng, o. right; exact P.
+    - (* ofill *) intros r x Hr Hc. destruct (i_ofill _ _ I r x Hr Hc) as [L|P]; [left; exact L|].
+      by_tid (r_tid r) t; [|right; exact P].
+      rewrite HA in P. destruct P as [E|P]; [exfalso; eapply HC; eauto | right; exact P].
+    - (* tryj *) intros t' rng k o H. by_tid t' t; [|eapply i_tryj; eauto].
+      eapply (i_tryj _ _ I t). destruct H as [H|H]; [left|right]; apply Sub; exact H.
+    - (* stnull *) intros t' rng k o H. by_tid t' t; [|eapply i_stnull; eauto]. eapply (i_stnull _ _ I t). apply Sub; exact H.
+    - (* sthead *) intros t' m' rest' rng k o E. by_tid t' t; [|eapply i_sthead; eauto].
+      subst rest. intros H. eapply (i_sthead _ _ I t _ _ rng k o HA). right; exact H.
+    - (* consj *) intros t' x tag H. by_tid t' t; [|eapply i_consj; eauto].
+      destruct (i_consj _ _ I t x tag (Sub _ H)) as (N & R & W). split; [exact N|]. split; [exact R|].
+      destruct W as [W|[rng W]]; [left; exact W|]. rewrite HA in W. destruct W as [E|W]; [left; eapply HW; eauto | right; exists rng; exact W].
+    - (* consnd *) intros t'. by_tid t' t; [|apply (i_consnd _ _ I)].
+      pose proof (i_consnd _ _ I t) as N. rewrite HA in N. eapply NoDup_cons_idxs_tail; eauto.
+    - (* shape *) intros t'. by_tid t' t; [|apply (i_shape _ _ I)].
+      pose proof (i_shape _ _ I t) as S. rewrite HA in S. eapply shape_tail; eauto.
+    - (* fwf *) intros t' d tag inc H. by_tid t' t; [|eapply i_fwf; eauto]. eapply (i_fwf _ _ I t). apply Sub; exact H.
+    - (* waitj *) intros t' rng k H. by_tid t' t; [|eapply i_waitj; eauto]. eapply (i_waitj _ _ I t). apply Sub; exact H.
+  Qed.
+
+  (* -------- MTry saw null: the thread is now committed to the store *)
+  Lemma inv_try_null g A t rng k o rest :
+    Inv g A -> A t = MTry rng k o :: rest -> lookup k (g_bufs g) = 0 ->
+    Inv g (upd A t (MStore rng k o :: rest)).
+  Proof.
+    intros I HA HN.
+    assert (Sub : forall x, In x rest -> In x (A t)) by (intros x Ix; rewrite HA; right; exact Ix).
+    assert (Hd : In (MTry rng k o) (A t)) by (rewrite HA; left; reflexivity).
+    constructor; try (destruct I; assumption).
+    - intros r k' Hr Hk Hc. destruct (i_oalloc _ _ I r k' Hr Hk Hc) as [L|P]; [left; exact L|].
+      by_tid (r_tid r) t; [|right; exact P]. right.
+      rewrite HA in P. destruct P as (rng' & o' & [[E|P]|[E|P]]).
+      + injection E as <- <- <-. exists rng, o. right; left; reflexivity.
+      + exists rng', o'. left; right; exact P.
+      + discriminate E.
+      + exists rng', o'. right; right; exact P.
+    - intros r x Hr Hc. destruct (i_ofill _ _ I r x Hr Hc) as [L|P]; [left; exact L|].
+      by_tid (r_tid r) t; [|right; exact P].
+      rewrite HA in P. destruct P as [E|P]; [discriminate E | right; right; exact P].
+    - intros t' rng' k' o' H. by_tid t' t; [|eapply i_tryj; eauto].
+      eapply (i_tryj _ _ I t). destruct H as [[E|H]|[E|H]].
+      + discriminate E.
+      + left; apply Sub; exact H.
+      + injection E as <- <- <-. left; exact Hd.
+      + right; apply Sub; exact H.
+    - intros t' rng' k' o' H. by_tid t' t; [|eapply i_stnull; eauto].
+      destruct H as [E|H]; [injection E as <- <- <-; exact HN | eapply (i_stnull _ _ I t); apply Sub; exact H].
+    - intros t' m' rest' rng' k' o' E. by_tid t' t; [|eapply i_sthead; eauto].
+      injection E as <- <-. eapply (i_sthead _ _ I t); eauto.
+    - intros t' x tag H. by_tid t' t; [|eapply i_consj; eauto].
+      destruct H as [E|H]; [discriminate E|].
+      destruct (i_consj _ _ I t x tag (Sub _ H)) as (N & R & W). split; [exact N|]. split; [exact R|].
+      destruct W as [W|[rng' W]]; [left; exact W|]. rewrite HA in W. destruct W as [E|W]; [discriminate E | right; exists rng'; right; exact W].
+    - intros t'. by_tid t' t; [|apply (i_consnd _ _ I)].
+      pose proof (i_consnd _ _ I t) as N. rewrite HA in N. exact N.
+    - intros t'. by_tid t' t; [|apply (i_shape _ _ I)].
+      pose proof (i_shape _ _ I t) as S. rewrite HA in S. eapply shape_same_rank; [|exact S]. reflexivity.
+    - intros t' d tag inc H. by_tid t' t; [|eapply i_fwf; eauto].
+      destruct H as [E|H]; [discriminate E | eapply (i_fwf _ _ I t); apply Sub; exact H].
+    - intros t' rng' k' H. by_tid t' t; [|eapply i_waitj; eauto].
+      destruct H as [E|H]; [discriminate E | eapply (i_waitj _ _ I t); apply Sub; exact H].
+  Qed.
+
+  (* -------- an agenda without pending work is replaced by another such agenda (next operation; grow_to_at_least's load) *)
+  Lemma inv_set_inert g A t a' :
+    Inv g A -> inert (A t) -> inert a' -> ag_shape a' -> (forall d tag inc, In (MFetchN d tag inc) a' -> 0 <= d) ->
+    Inv g (upd A t a').
+  Proof.
+    intros I IA Ia Sh Fw.
+    assert (No : forall m, In m a' -> rank m <> 0%nat -> False) by (intros m Im R; apply R, Ia, Im).
+    assert (NoA : forall m, In m (A t) -> rank m <> 0%nat -> False) by (intros m Im R; apply R, IA, Im).
+    constructor; try (destruct I; assumption).
+    - intros r k Hr Hk Hc. destruct (i_oalloc _ _ I r k Hr Hk Hc) as [L|P]; [left; exact L|].
+      by_tid (r_tid r) t; [|right; exact P]. exfalso.
+      destruct P as (rng & o & [P|P]); eapply NoA; eauto; cbn; discriminate.
+    - intros r x Hr Hc. destruct (i_ofill _ _ I r x Hr Hc) as [L|P]; [left; exact L|].
+      by_tid (r_tid r) t; [|right; exact P]. exfalso. eapply NoA; eauto; cbn; discriminate.
+    - intros t' rng k o H. by_tid t' t; [|eapply i_tryj; eauto]. exfalso. destruct H as [H|H]; eapply No; eauto; cbn; discriminate.
+    - intros t' rng k o H. by_tid t' t; [|eapply i_stnull; eauto]. exfalso. eapply No; eauto; cbn; discriminate.
+    - intros t' m' rest' rng k o E. by_tid t' t; [|eapply i_sthead; eauto].
+      intros H. eapply No; [rewrite E; right; exact H | cbn; discriminate].
+    - intros t' x tag H. by_tid t' t; [|eapply i_consj; eauto]. exfalso. eapply No; eauto; cbn; discriminate.
+    - intros t'. by_tid t' t; [|apply (i_consnd _ _ I)]. rewrite cons_idxs_norank; [constructor|].
+      intros m Im R. eapply No; eauto. rewrite R. discriminate.
+    - intros t'. by_tid t' t; [exact Sh | apply (i_shape _ _ I)].
+    - intros t' d tag inc H. by_tid t' t; [eapply Fw; eauto | eapply i_fwf; eauto].
+    - intros t' rng k H. by_tid t' t; [|eapply i_waitj; eauto]. exfalso. eapply No; eauto; cbn; discriminate.
+  Qed.
+
+  (* -------- the committed store *)
+  Lemma inv_store g A t rng k o rest :
+    Inv g A -> A t = MStore rng k o :: rest ->
+    Inv (SH (g_size g) ((k, o) :: g_bufs g) (g_rlog g) (g_cells g)) (upd A t rest).
+  Proof.
+    intros I HA.
+    assert (Sub : forall x, In x rest -> In x (A t)) by (intros x Ix; rewrite HA; right; exact Ix).
+    assert (Hd : In (MStore rng k o) (A t)) by (rewrite HA; left; reflexivity).
+    destruct (i_tryj _ _ I t rng k o (or_intror Hd)) as (Hk & Ho & r0 & Hr0 & Tr0 & Cr0).
+    pose proof (i_stnull _ _ I t rng k o Hd) as HN.
+    assert (Mono : forall k', lookup k' (g_bufs g) <> 0 -> lookup k' ((k, o) :: g_bufs g) <> 0)
+      by (intros k' H; apply lookup_cons_mono; assumption).
+    constructor; cbn [g_size g_bufs g_rlog g_cells]; try (destruct I; assumption).
+    - (* bnodup *) cbn [map fst]. constructor; [|apply (i_bnodup _ _ I)].
+      intros Ik. apply (in_lookup k (g_bufs g) (i_bnz _ _ I)) in Ik. contradiction.
+    - (* bnz *) intros k' o' [E|H]; [injection E as <- <-; exact Ho | eapply i_bnz; eauto].
+    - (* b01 *) destruct (i_b01 _ _ I) as [B0 B1]. split; apply Mono; assumption.
+    - (* oalloc *) intros r k' Hr Hk' Hc. destruct (i_oalloc _ _ I r k' Hr Hk' Hc) as [L|P]; [left; apply Mono; exact L|].
+      by_tid (r_tid r) t; [|right; exact P].
+      rewrite HA in P. destruct P as (rng' & o' & [[E|P]|[E|P]]).
+      + discriminate E.
+      + right. exists rng', o'. left; exact P.
+      + injection E as <- <- <-. left. cbn [lookup]. rewrite Z.eqb_refl. exact Ho.
+      + right. exists rng', o'. right; exact P.
+    - (* ofill *) intros r x Hr Hc. destruct (i_ofill _ _ I r x Hr Hc) as [L|P]; [left; exact L|].
+      by_tid (r_tid r) t; [|right; exact P].
+      rewrite HA in P. destruct P as [E|P]; [discriminate E | right; exact P].
+    - (* tryj *) intros t' rng' k' o' H. by_tid t' t; [|eapply i_tryj; eauto].
+      eapply (i_tryj _ _ I t). destruct H as [H|H]; [left|right]; apply Sub; exact H.
+    - (* stnull *) intros t' rng' k' o' H. by_tid t' t.
+      + exfalso. eapply (i_sthead _ _ I t _ _ rng' k' o' HA). exact H.
+      + pose proof (i_stnull _ _ I t' rng' k' o' H) as HN'.
+        rewrite lookup_cons_other; [exact HN'|]. intros ->.
+        destruct (i_tryj _ _ I t' rng' k o' (or_intror H)) as (_ & _ & r' & Hr' & Tr' & Cr').
+        assert (r' = r0) by (eapply lchain_covers_unique; [apply (i_chain _ _ I) | eauto ..]). subst r'. congruence.
+    - (* sthead *) intros t' m' rest' rng' k' o' E. by_tid t' t; [|eapply i_sthead; eauto].
+      subst rest. intros H. eapply (i_sthead _ _ I t _ _ rng' k' o' HA). right; exact H.
+    - (* consj *) intros t' x tag H.
+      assert (K : forall (P : Prop), (lookup (bkt shift x) (g_bufs g) <> 0 \/ P) -> (lookup (bkt shift x) ((k, o) :: g_bufs g) <> 0 \/ P))
+        by (intros P [L|R]; [left; apply Mono; exact L | right; exact R]).
+      by_tid t' t.
+      + destruct (i_consj _ _ I t x tag (Sub _ H)) as (N & R & W). split; [exact N|]. split; [exact R|]. apply K.
+        destruct W as [W|[rng' W]]; [left; exact W|]. rewrite HA in W. destruct W as [E|W]; [discriminate E | right; exists rng'; exact W].
+      + destruct (i_consj _ _ I t' x tag H) as (N' & R & W). split; [exact N'|]. split; [exact R|]. apply K. exact W.
+    - (* consnd *) intros t'. by_tid t' t; [|apply (i_consnd _ _ I)].
+      pose proof (i_consnd _ _ I t) as N. rewrite HA in N. eapply NoDup_cons_idxs_tail; eauto.
+    - (* shape *) intros t'. by_tid t' t; [|apply (i_shape _ _ I)].
+      pose proof (i_shape _ _ I t) as S. rewrite HA in S. eapply shape_tail; eauto.
+    - (* fwf *) intros t' d tag inc H. by_tid t' t; [|eapply i_fwf; eauto]. eapply (i_fwf _ _ I t). apply Sub; exact H.
+    - (* waitj *) intros t' rng' k' H. by_tid t' t; [|eapply i_waitj; eauto]. eapply (i_waitj _ _ I t). apply Sub; exact H.
+  Qed.
+
+  (* -------- one element construction *)
+  Lemma inv_cons g A t x tag rest :
+    Inv g A -> A t = MCons x tag :: rest ->
+    Inv (SH (g_size g) (g_bufs g) (g_rlog g) (GCE x tag (lookup (bkt shift x) (g_bufs g)) :: g_cells g)) (upd A t rest).
+  Proof.
+    intros I HA.
+    assert (Sub : forall y, In y rest -> In y (A t)) by (intros y Iy; rewrite HA; right; exact Iy).
+    assert (Hd : In (MCons x tag) (A t)) by (rewrite HA; left; reflexivity).
+    destruct (i_consj _ _ I t x tag Hd) as (Nx & (r0 & Hr0 & Tr0 & Cr0 & Tg0) & W).
+    assert (Bx : lookup (bkt shift x) (g_bufs g) <> 0).
+    { destruct W as [W|[rng W]]; [exact W|]. exfalso.
+      pose proof (i_shape _ _ I t) as S. rewrite HA in S. rewrite HA in W.
+      pose proof (shape_head_le _ _ _ S W) as Le. cbn in Le. lia. }
+    constructor; cbn [g_size g_bufs g_rlog g_cells]; try (destruct I; assumption).
+    - (* cnodup *) cbn [map gc_idx]. constructor; [exact Nx | apply (i_cnodup _ _ I)].
+    - (* cok *) intros c [<-|Ic]; [|eapply i_cok; eauto]. cbn [gc_buf gc_idx gc_tag]. split; [exact Bx|]. exists r0. auto.
+    - (* oalloc *) intros r k Hr Hk Hc. destruct (i_oalloc _ _ I r k Hr Hk Hc) as [L|P]; [left; exact L|].
+      by_tid (r_tid r) t; [|right; exact P]. right.
+      rewrite HA in P. destruct P as (rng' & o' & [[E|P]|[E|P]]); try discriminate E; exists rng', o'; [left|right]; exact P.
+    - (* ofill *) intros r x' Hr Hc. cbn [map gc_idx In].
+      destruct (i_ofill _ _ I r x' Hr Hc) as [L|P]; [left; right; exact L|].
+      by_tid (r_tid r) t; [|right; exact P].
+      rewrite HA in P. destruct P as [E|P]; [injection E as <- _; left; left; reflexivity | right; exact P].
+    - (* tryj *) intros t' rng' k' o' H. by_tid t' t; [|eapply i_tryj; eauto].
+      eapply (i_tryj _ _ I t). destruct H as [H|H]; [left|right]; apply Sub; exact H.
+    - (* stnull *) intros t' rng' k' o' H. by_tid t' t; [|eapply i_stnull; eauto]. eapply (i_stnull _ _ I t). apply Sub; exact H.
+    - (* sthead *) intros t' m' rest' rng' k' o' E. by_tid t' t; [|eapply i_sthead; eauto].
+      subst rest. intros H. eapply (i_sthead _ _ I t _ _ rng' k' o' HA). right; exact H.
+    - (* consj *) intros t' x' tag' H. cbn [map gc_idx In]. by_tid t' t.
+      + destruct (i_consj _ _ I t x' tag' (Sub _ H)) as (N & R & W'). split; [|split; [exact R|]].
+        * intros [E|Ix]; [|exact (N Ix)]. subst x'.
+          pose proof (i_consnd _ _ I t) as ND. rewrite HA in ND. cbn [cons_idxs] in ND. inversion ND as [|? ? Nin _]; subst.
+          apply Nin. eapply in_cons_idxs; eauto.
+        * destruct W' as [W'|[rng' W']]; [left; exact W'|]. rewrite HA in W'.
+          destruct W' as [E|W']; [discriminate E | right; exists rng'; exact W'].
+      + destruct (i_consj _ _ I t' x' tag' H) as (N' & (r' & Hr' & Tr' & Cr' & Tg') & W'). split; [|split; [eauto|exact W']].
+        intros [E|Ix]; [|exact (N' Ix)]. subst x'.
+        assert (r' = r0) by (eapply lchain_covers_unique; [apply (i_chain _ _ I) | eauto ..]). subst r'. congruence.
+    - (* consnd *) intros t'. by_tid t' t; [|apply (i_consnd _ _ I)].
+      pose proof (i_consnd _ _ I t) as N. rewrite HA in N. eapply NoDup_cons_idxs_tail; eauto.
+    - (* shape *) intros t'. by_tid t' t; [|apply (i_shape _ _ I)].
+      pose proof (i_shape _ _ I t) as S. rewrite HA in S. eapply shape_tail; eauto.
+    - (* fwf *) intros t' d tag' inc H. by_tid t' t; [|eapply i_fwf; eauto]. eapply (i_fwf _ _ I t). apply Sub; exact H.
+    - (* waitj *) intros t' rng' k' H. by_tid t' t; [|eapply i_waitj; eauto]. eapply (i_waitj _ _ I t). apply Sub; exact H.
+  Qed.
+
+  (* -------- a fetch_add: a new reservation, the agenda becomes its plan *)
+  Lemma inv_fetch g A t m d tag inc plan :
+    Inv g A -> A t = [m] -> rank m = 0%nat -> 0 <= d ->
+    (forall k, 1 <= k -> g_size g <= trig k < g_size g + d -> exists rng, In (MTry rng k (g_size g + 1)) plan) ->
+    (forall rng k o, In (MTry rng k o) plan -> 1 <= k /\ g_size g <= trig k < g_size g + d /\ o = g_size g + 1) ->
+    (forall m', In m' plan -> (1 <= rank m')%nat) ->
+    (forall rng k o, ~ In (MStore rng k o) plan) ->
+    sorted plan ->
+    (forall x, g_size g <= x < g_size g + d -> In (MCons x (tag + inc * (x - g_size g))) plan) ->
+    (forall x tag', In (MCons x tag') plan ->
+       g_size g <= x < g_size g + d /\ tag' = tag + inc * (x - g_size g) /\ exists rng, In (MWait rng (bkt shift x)) plan) ->
+    NoDup (cons_idxs plan) ->
+    (forall rng k, In (MWait rng k) plan -> 0 <= k /\ bucket_start shift k <= g_size g + d) ->
+    Inv (SH (g_size g + d) (g_bufs g) (RV t (g_size g) d tag inc :: g_rlog g) (g_cells g)) (upd A t plan).
+  Proof.
+    intros I HA R0 Hd H1 H2 H3 H3b H4 H5 H6 H7 H8.
+    set (i := g_size g) in *. set (r0 := RV t i d tag inc).
+    pose proof (lchain_nonneg _ _ (i_chain _ _ I)) as Hi. fold i in Hi.
+    assert (NoA : forall m', In m' (A t) -> rank m' <> 0%nat -> False).
+    { intros m' Im Rm. rewrite HA in Im. destruct Im as [<-|[]]. contradiction. }
+    constructor; cbn [g_size g_bufs g_rlog g_cells]; try (destruct I; assumption).
+    - (* chain *) cbn [lchain r_start r_delta r0]. split; [reflexivity|]. split; [exact Hd | apply (i_chain _ _ I)].
+    - (* cok *) intros c Ic. destruct (i_cok _ _ I c Ic) as (B & r & Hr & Cr & Tr). split; [exact B|]. exists r. split; [right; exact Hr | auto].
+    - (* oalloc *) intros r k [<-|Hr] Hk Hc.
+      + right. cbn [r_tid r0]. rewrite upd_same. unfold covers in Hc; cbn [r_start r_delta r0] in Hc.
+        destruct (H1 k Hk Hc) as [rng Hin]. exists rng, (i + 1). left; exact Hin.
+      + destruct (i_oalloc _ _ I r k Hr Hk Hc) as [L|P]; [left; exact L|].
+        by_tid (r_tid r) t; [|right; exact P]. exfalso.
+        destruct P as (rng & o & [P|P]); eapply NoA; eauto; cbn; discriminate.
+    - (* ofill *) intros r x [<-|Hr] Hc.
+      + right. cbn [r_tid r0]. rewrite upd_same. unfold covers in Hc; cbn [r_start r_delta r0] in Hc.
+        unfold tag_of; cbn [r_tag r_inc r_start r0]. apply H5. exact Hc.
+      + destruct (i_ofill _ _ I r x Hr Hc) as [L|P]; [left; exact L|].
+        by_tid (r_tid r) t; [|right; exact P]. exfalso. eapply NoA; eauto; cbn; discriminate.
+    - (* tryj *) intros t' rng k o H. by_tid t' t.
+      + destruct H as [H|H]; [|exfalso; exact (H3b _ _ _ H)].
+        destruct (H2 _ _ _ H) as (Hk & Tk & ->). split; [exact Hk|]. split; [lia|].
+        exists r0. split; [left; reflexivity|]. split; [reflexivity|]. unfold covers; cbn [r_start r_delta r0]. exact Tk.
+      + destruct (i_tryj _ _ I t' rng k o H) as (Hk & Ho & r & Hr & Tr & Cr). split; [exact Hk|]. split; [exact Ho|].
+        exists r. split; [right; exact Hr | auto].
+    - (* stnull *) intros t' rng k o H. by_tid t' t; [|eapply i_stnull; eauto]. exfalso. exact (H3b _ _ _ H).
+    - (* sthead *) intros t' m' rest' rng k o E. by_tid t' t; [|eapply i_sthead; eauto].
+      intros H. assert (Ip : In (MStore rng k o) plan) by (rewrite E; right; exact H). exact (H3b _ _ _ Ip).
+    - (* consj *) intros t' x tag' H. by_tid t' t.
+      + destruct (H6 _ _ H) as (Bx & Tg & W). split; [|split].
+        * intros Ix. apply in_map_iff in Ix. destruct Ix as (c & Ec & Ic).
+          destruct (i_cok _ _ I c Ic) as (_ & r & Hr & Cr & _).
+          destruct (lchain_in _ _ _ (i_chain _ _ I) Hr) as (_ & _ & En). unfold covers in Cr. fold i in En. lia.
+        * exists r0. split; [left; reflexivity|]. split; [reflexivity|]. split; [unfold covers; cbn [r_start r_delta r0]; exact Bx|].
+          unfold tag_of; cbn [r_tag r_inc r_start r0]. exact Tg.
+        * right. exact W.
+      + destruct (i_consj _ _ I t' x tag' H) as (N' & (r & Hr & Tr & Cr & Tg) & W). split; [exact N'|]. split; [|exact W].
+        exists r. split; [right; exact Hr | auto].
+    - (* consnd *) intros t'. by_tid t' t; [exact H7 | apply (i_consnd _ _ I)].
+    - (* shape *) intros t'. by_tid t' t; [|apply (i_shape _ _ I)]. right. split; [exact H3 | exact H4].
+    - (* fwf *) intros t' d' tag' inc' H. by_tid t' t; [|eapply i_fwf; eauto]. exfalso. pose proof (H3 _ H) as R. cbn in R. lia.
+    - (* waitj *) intros t' rng k H. by_tid t' t; [exact (H8 _ _ H)|].
+      destruct (i_waitj _ _ I t' rng k H) as (K0 & Ks). fold i in Ks. split; [exact K0 | lia].
+  Qed.
+
+  (* -------- the plans of the two variants *)
+  Lemma map_rank (f : Z -> mop) l n : (forall k, rank (f k) = n) -> forall m, In m (map f l) -> rank m = n.
+  Proof. intros H m Im. apply in_map_iff in Im. destruct Im as (k & <- & _). apply H. Qed.
+
+  Lemma sorted_app' a b n : sorted a -> sorted b -> (forall m, In m a -> (rank m <= n)%nat) -> (forall m, In m b -> (n <= rank m)%nat) ->
+    sorted (a ++ b).
+  Proof. intros Sa Sb Ha Hb. apply sorted_app; try assumption. intros x y Ix Iy. specialize (Ha _ Ix). specialize (Hb _ Iy). lia. Qed.
+
+  Lemma sorted_4 a b c d :
+    (forall m, In m a -> rank m = 1%nat) -> (forall m, In m b -> rank m = 2%nat) ->
+    (forall m, In m c -> rank m = 3%nat) -> (forall m, In m d -> rank m = 4%nat) ->
+    sorted (a ++ b ++ c ++ d) /\ (forall m, In m (a ++ b ++ c ++ d) -> (1 <= rank m)%nat).
+  Proof.
+    intros Ra Rb Rc Rd. split.
+    - apply sorted_app' with (n := 1%nat); [eapply sorted_const; eauto | | intros m Im; rewrite (Ra _ Im); lia |].
+      + apply sorted_app' with (n := 2%nat); [eapply sorted_const; eauto | | intros m Im; rewrite (Rb _ Im); lia |].
+        * apply sorted_app' with (n := 3%nat); [eapply sorted_const; eauto | eapply sorted_const; eauto | intros m Im; rewrite (Rc _ Im); lia |].
+          intros m Im; rewrite (Rd _ Im); lia.
+        * intros m Im. apply in_app_iff in Im. destruct Im as [Im|Im]; [rewrite (Rc _ Im) | rewrite (Rd _ Im)]; lia.
+      + intros m Im. rewrite !in_app_iff in Im. destruct Im as [Im|[Im|Im]]; [rewrite (Rb _ Im) | rewrite (Rc _ Im) | rewrite (Rd _ Im)]; lia.
+    - intros m Im. rewrite !in_app_iff in Im. destruct Im as [Im|[Im|[Im|Im]]];
+        [rewrite (Ra _ Im) | rewrite (Rb _ Im) | rewrite (Rc _ Im) | rewrite (Rd _ Im)]; lia.
+  Qed.
+
+  Lemma cons_idxs_conses i d tag inc : cons_idxs (conses i d tag inc) = zrange i (Z.to_nat d).
+  Proof. unfold conses. induction (zrange i (Z.to_nat d)) as [|x l IH]; cbn [map cons_idxs]; [reflexivity | rewrite IH; reflexivity]. Qed.
+
+  Lemma inv_fetch1 g A t tag :
+    Inv g A -> A t = [MFetch1 tag] ->
+    Inv (SH (g_size g + 1) (g_bufs g) (RV t (g_size g) 1 tag 0 :: g_rlog g) (g_cells g)) (upd A t (plan1 strat shift (g_size g) tag)).
+  Proof.
+    intros I HA. pose proof (lchain_nonneg _ _ (i_chain _ _ I)) as Hi. set (i := g_size g) in *.
+    assert (Parts : forall m, In m (plan1 strat shift i tag) ->
+              (exists k, m = MTry false k (i + 1) /\ In k (allocs1 strat shift i)) \/ m = MWait false (bkt shift i) \/ m = MCons i tag).
+    { intros m Im. unfold plan1, waits1 in Im. rewrite !in_app_iff in Im. destruct Im as [Im|[Im|Im]].
+      - apply in_map_iff in Im. destruct Im as (k & <- & Ik). left. exists k. auto.
+      - cbn [map In] in Im. destruct Im as [<-|[]]. right; left; reflexivity.
+      - destruct Im as [<-|[]]. right; right; reflexivity. }
+    assert (S4 := sorted_4 [] (map (fun k => MTry false k (i + 1)) (allocs1 strat shift i)) (map (MWait false) (waits1 shift i)) [MCons i tag]
+                    ltac:(intros ? []) (map_rank (fun k => MTry false k (i + 1)) _ 2%nat (fun _ => eq_refl)) (map_rank (MWait false) _ 3%nat (fun _ => eq_refl))
+                    ltac:(intros ? [<-|[]]; reflexivity)).
+    cbn [app] in S4. fold (plan1 strat shift i tag) in S4. destruct S4 as [S4 R4].
+    eapply (inv_fetch g A t (MFetch1 tag) 1 tag 0); try eassumption; try reflexivity; try lia.
+    - intros k Hk Tk. exists false. unfold plan1. apply in_app_iff. left. apply in_map_iff. exists k. split; [reflexivity|].
+      apply allocs1_spec; [assumption | assumption | split; [exact Hk | fold i in Tk; lia]].
+    - intros rng k o Im. destruct (Parts _ Im) as [(k0 & E & Ik)|[E|E]]; try discriminate E.
+      injection E as E1 E2 E3. subst rng k o. apply allocs1_spec in Ik; try assumption. fold i. split; [lia|]. split; [lia | reflexivity].
+    - intros rng k o Im. destruct (Parts _ Im) as [(k0 & E & Ik)|[E|E]]; discriminate E.
+    - intros x Hx. fold i in Hx. assert (x = i) by lia. subst x. unfold plan1. rewrite !in_app_iff. right; right. left.
+      f_equal. fold i. lia.
+    - intros x tag' Im. destruct (Parts _ Im) as [(k0 & E & Ik)|[E|E]]; try discriminate E. injection E as -> ->. fold i.
+      split; [lia|]. split; [lia|]. exists false. unfold plan1, waits1. rewrite !in_app_iff. right; left. left; reflexivity.
+    - unfold plan1. rewrite !cons_idxs_app. rewrite (cons_idxs_norank (map _ (allocs1 _ _ _))), (cons_idxs_norank (map _ (waits1 _ _))).
+      + cbn. constructor; [intros [] | constructor].
+      + intros m Im. apply in_map_iff in Im. destruct Im as (k & <- & _). cbn. discriminate.
+      + intros m Im. apply in_map_iff in Im. destruct Im as (k & <- & _). cbn. discriminate.
+    - intros rng k Im. destruct (Parts _ Im) as [(k0 & E & Ik)|[E|E]]; try discriminate E. injection E as _ ->. fold i.
+      pose proof (g_bkt_bounds shift i Hs Hi). lia.
+  Qed.
+
+  Lemma inv_fetchN g A t d tag inc :
+    Inv g A -> A t = [MFetchN d tag inc] ->
+    Inv (SH (g_size g + d) (g_bufs g) (RV t (g_size g) d tag inc :: g_rlog g) (g_cells g)) (upd A t (planN strat shift (g_size g) d tag inc)).
+  Proof.
+    intros I HA. pose proof (lchain_nonneg _ _ (i_chain _ _ I)) as Hi. set (i := g_size g) in *.
+    assert (Hd : 0 <= d) by (eapply (i_fwf _ _ I t); rewrite HA; left; reflexivity).
+    assert (Parts : forall m, In m (planN strat shift i d tag inc) ->
+              (exists k, m = MCnt k) \/ (exists k, m = MTry true k (i + 1) /\ In k (allocsN strat shift i d)) \/
+              (exists k, m = MWait true k /\ In k (waitsN shift i d)) \/
+              (exists x, m = MCons x (tag + inc * (x - i)) /\ i <= x < i + d)).
+    { intros m Im. unfold planN in Im. rewrite !in_app_iff in Im. destruct Im as [Im|[Im|[Im|Im]]].
+      - apply in_map_iff in Im. destruct Im as (k & <- & Ik). left. exists k. auto.
+      - apply in_map_iff in Im. destruct Im as (k & <- & Ik). right; left. exists k. auto.
+      - apply in_map_iff in Im. destruct Im as (k & <- & Ik). right; right; left. exists k. auto.
+      - unfold conses in Im. apply in_map_iff in Im. destruct Im as (x & <- & Ix). right; right; right. exists x. split; [reflexivity|].
+        apply in_zrange in Ix. lia. }
+    assert (S4 := sorted_4 (map MCnt (allocsN strat shift i d)) (map (fun k => MTry true k (i + 1)) (allocsN strat shift i d))
+                    (map (MWait true) (waitsN shift i d)) (conses i d tag inc)
+                    (map_rank MCnt _ 1%nat (fun _ => eq_refl)) (map_rank (fun k => MTry true k (i + 1)) _ 2%nat (fun _ => eq_refl))
+                    (map_rank (MWait true) _ 3%nat (fun _ => eq_refl))
+                    (map_rank (fun x => MCons x (tag + inc * (x - i))) _ 4%nat (fun _ => eq_refl))).
+    fold (planN strat shift i d tag inc) in S4. destruct S4 as [S4 R4].
+    eapply (inv_fetch g A t (MFetchN d tag inc) d tag inc); try eassumption; try reflexivity.
+    - intros k Hk Tk. exists true. unfold planN. rewrite !in_app_iff. right; left. apply in_map_iff. exists k. split; [reflexivity|].
+      apply allocsN_spec; try assumption. split; assumption.
+    - intros rng k o Im. destruct (Parts _ Im) as [(k0 & E)|[(k0 & E & Ik)|[(k0 & E & Ik)|(x & E & Ix)]]]; try discriminate E.
+      injection E as E1 E2 E3. subst rng k o. apply allocsN_spec in Ik; try assumption. fold i. split; [lia|]. split; [lia | reflexivity].
+    - intros rng k o Im. destruct (Parts _ Im) as [(k0 & E)|[(k0 & E & Ik)|[(k0 & E & Ik)|(x & E & Ix)]]]; discriminate E.
+    - intros x Hx. fold i in Hx. unfold planN, conses. rewrite !in_app_iff. right; right; right. apply in_map_iff. exists x.
+      split; [reflexivity|]. apply in_zrange. lia.
+    - intros x tag' Im. destruct (Parts _ Im) as [(k0 & E)|[(k0 & E & Ik)|[(k0 & E & Ik)|(x0 & E & Ix)]]]; try discriminate E.
+      injection E as -> ->. fold i. split; [exact Ix|]. split; [reflexivity|]. exists true.
+      unfold planN. rewrite !in_app_iff. right; right; left. apply in_map_iff. exists (bkt shift x0). split; [reflexivity|].
+      unfold waitsN. apply in_zspan. split; apply g_bkt_mono; try assumption; lia.
+    - unfold planN. rewrite !cons_idxs_app.
+      rewrite (cons_idxs_norank (map MCnt _)), (cons_idxs_norank (map (fun k => MTry true k (i + 1)) _)), (cons_idxs_norank (map (MWait true) _)).
+      + cbn [app]. rewrite cons_idxs_conses. apply NoDup_zrange.
+      + intros m Im. apply in_map_iff in Im. destruct Im as (k & <- & _). cbn. discriminate.
+      + intros m Im. apply in_map_iff in Im. destruct Im as (k & <- & _). cbn. discriminate.
+      + intros m Im. apply in_map_iff in Im. destruct Im as (k & <- & _). cbn. discriminate.
+    - intros rng k Im. destruct (Parts _ Im) as [(k0 & E)|[(k0 & E & Ik)|[(k0 & E & Ik)|(x & E & Ix)]]]; try discriminate E.
+      injection E as _ ->. fold i. unfold waitsN in Ik. apply in_zspan in Ik.
+      pose proof (g_bkt_bounds shift i Hs Hi) as (B0 & _).
+      pose proof (g_bkt_bounds shift (i + d) Hs ltac:(lia)) as (B1 & L1 & _).
+      pose proof (g_start_mono shift k0 (bkt shift (i + d)) Hs ltac:(lia)). lia.
+  Qed.
+
+  (* ------------------------------------------------------------------------------------------------ the step preserves the invariant *)
+  Definition agof (s : state) (t : nat) : list mop := match nth_error (threads s) t with Some th => ag th | None => [] end.
+  Definition wf_op (o : gop) : Prop := match o with GGrow d _ _ => 0 <= d | _ => True end.
+  Definition SInv (s : state) : Prop := Inv (sh s) (agof s) /\ Forall (fun th => Forall wf_op (prog th)) (threads s).
+
+  Lemma nth_error_set_nth_same {X} (l : list X) t x x0 : nth_error l t = Some x0 -> nth_error (set_nth l t x) t = Some x.
+  Proof. revert t; induction l as [|a l IH]; intros [|t] H; cbn in *; try discriminate; [reflexivity | eapply IH; eauto]. Qed.
+  Lemma nth_error_set_nth_other {X} (l : list X) t t' x : t' <> t -> nth_error (set_nth l t x) t' = nth_error l t'.
+  Proof.
+    revert t t'; induction l as [|a l IH]; intros [|t] [|t'] N; cbn; try reflexivity; try contradiction.
+    apply IH. intros ->. apply N. reflexivity.
+  Qed.
+  Lemma Forall_set_nth' {X} (P : X -> Prop) l t x : Forall P l -> P x -> Forall P (set_nth l t x).
+  Proof.
+    revert t; induction l as [|a l IH]; intros t F Px; [destruct t; constructor|].
+    inversion F; subst. destruct t as [|t]; cbn; constructor; auto.
+  Qed.
+
+  Lemma entry_ok o : wf_op o -> inert (entry o) /\ ag_shape (entry o) /\ (forall d tag inc, In (MFetchN d tag inc) (entry o) -> 0 <= d).
+  Proof.
+    intros W. destruct o; cbn [entry]; (split; [intros m [<-|[]]; reflexivity|]); (split; [left; eexists; split; reflexivity|]);
+      intros d' tag' inc' [E|[]]; try discriminate E. injection E as <- _ _. exact W.
+  Qed.
+
+  Lemma step_inv s t ch s' ch' site : SInv s -> gstep strat shift s t ch = Some (s', ch', site) -> SInv s'.
+  Proof.
+    intros [I W] E. unfold gstep in E.
+    destruct (nth_error (threads s) t) as [th|] eqn:N; [|discriminate].
+    destruct (ag th) as [|m rest] eqn:Hag; [discriminate|].
+    destruct (exec strat shift t m (sh s)) as [[[g' pre] rs] site0] eqn:X.
+    injection E as <- _ _. cbn [sh threads].
+    assert (HA : agof s t = m :: rest) by (unfold agof; rewrite N; exact Hag).
+    assert (Wth : Forall wf_op (prog th)) by (rewrite Forall_forall in W; apply W; eapply nth_error_In; eauto).
+    pose proof (i_shape _ _ I t) as Sh. rewrite HA in Sh.
+    (* stage 1: the micro-operation *)
+    assert (I1 : Inv g' (upd (agof s) t (pre ++ rest))).
+    { destruct m; cbn [exec] in X.
+      - injection X as <- <- _ _. cbn [app]. eapply inv_pop; eauto; intros; discriminate.
+      - injection X as <- <- _ _. rewrite (shape_rank0_alone _ _ Sh eq_refl) in *. rewrite app_nil_r. apply inv_fetch1; assumption.
+      - injection X as <- <- _ _. rewrite (shape_rank0_alone _ _ Sh eq_refl) in *. rewrite app_nil_r. apply inv_fetchN; assumption.
+      - rewrite (shape_rank0_alone _ _ Sh eq_refl) in *. destruct (g_size (sh s) <? n) eqn:Q.
+        + injection X as <- <- _ _. apply Z.ltb_lt in Q. cbn [app]. apply inv_set_inert; try assumption.
+          * rewrite HA. intros m [<-|[]]. reflexivity.
+          * intros m [<-|[]]. reflexivity.
+          * left. eexists; split; reflexivity.
+          * intros d' tag' inc' [E|[]]. injection E as <- _ _. lia.
+        + injection X as <- <- _ _. cbn [app]. eapply inv_pop; eauto; intros; discriminate.
+      - injection X as <- <- _ _. cbn [app]. eapply inv_pop; eauto; intros; discriminate.
+      - destruct (lookup k (g_bufs (sh s)) =? 0) eqn:Q; injection X as <- <- _ _; cbn [app].
+        + apply Z.eqb_eq in Q. apply inv_try_null; assumption.
+        + apply Z.eqb_neq in Q. eapply inv_pop; eauto; try (intros; discriminate).
+          intros rng' k' o' E. injection E as _ <- _. exact Q.
+      - injection X as <- <- _ _. cbn [app]. apply inv_store with (rng := rng) (o := owner); assumption.
+      - destruct (lookup k (g_bufs (sh s)) =? 0) eqn:Q; injection X as <- <- _ _; cbn [app].
+        + eapply Inv_ext; [|exact I]. intros t'. destruct (Nat.eq_dec t' t) as [->|Nt]; [rewrite upd_same; exact HA | rewrite upd_other by exact Nt; reflexivity].
+        + apply Z.eqb_neq in Q. eapply inv_pop; eauto; try (intros; discriminate).
+          intros rng' k' E. injection E as _ <-. exact Q.
+      - injection X as <- <- _ _. cbn [app]. apply inv_cons; assumption. }
+    (* stage 2: entering the next operation when the agenda is exhausted *)
+    set (th' := norm (TH (pre ++ rest) (prog th) (rev rs ++ res th))).
+    assert (Ag : forall t', agof (ST g' (set_nth (threads s) t th')) t' = upd (agof s) t (ag th') t').
+    { intros t'. unfold agof at 1. cbn [threads]. destruct (Nat.eq_dec t' t) as [->|Nt].
+      - rewrite (nth_error_set_nth_same _ _ _ _ N), upd_same. reflexivity.
+      - rewrite nth_error_set_nth_other by exact Nt. rewrite upd_other by exact Nt. reflexivity. }
+    assert (Cases : (ag th' = pre ++ rest /\ prog th' = prog th) \/
+                    (pre ++ rest = [] /\ exists o p, prog th = o :: p /\ ag th' = entry o /\ prog th' = p)).
+    { unfold th', norm. cbn [ag prog res]. destruct (pre ++ rest) as [|m0 a0] eqn:Ea.
+      - destruct (prog th) as [|o p] eqn:Ep; cbn [ag prog]; [left; auto | right; split; [reflexivity|]; exists o, p; auto].
+      - left. cbn [ag prog]. auto. }
+    split.
+    - eapply Inv_ext; [intros t'; symmetry; apply Ag|].
+      destruct Cases as [[Ea Ep]|(Ea & o & p & Ep & Eo & Ep')].
+      + rewrite Ea. exact I1.
+      + rewrite Ea in I1. rewrite Eo.
+        assert (Wo : wf_op o) by (rewrite Ep in Wth; inversion Wth; assumption).
+        destruct (entry_ok o Wo) as (E1 & E2 & E3).
+        eapply Inv_ext; [|apply (inv_set_inert g' (upd (agof s) t []) t (entry o) I1); try assumption].
+        * intros t'. unfold upd. destruct (Nat.eqb t' t); reflexivity.
+        * rewrite upd_same. intros ? [].
+    - cbn [threads]. apply Forall_set_nth'; [exact W|].
+      destruct Cases as [[Ea Ep]|(Ea & o & p & Ep & Eo & Ep')]; [rewrite Ep; exact Wth|].
+      rewrite Ep'. rewrite Ep in Wth. inversion Wth; assumption.
+  Qed.
+
+  Lemma init_inv progs : Forall (Forall wf_op) progs -> SInv (init progs).
+  Proof.
+    intros F. split.
+    - assert (AgI : forall t, agof (init progs) t = [MStart] \/ agof (init progs) t = []).
+      { intros t. unfold agof, init. cbn [threads]. destruct (nth_error _ t) as [th|] eqn:N; [|right; reflexivity].
+        apply nth_error_In in N. apply in_map_iff in N. destruct N as (p & <- & _). left; reflexivity. }
+      assert (NoI : forall t m, In m (agof (init progs) t) -> m = MStart).
+      { intros t m Im. destruct (AgI t) as [E|E]; rewrite E in Im; [destruct Im as [<-|[]]; reflexivity | destruct Im]. }
+      constructor; cbn [sh init init_shared g_size g_bufs g_rlog g_cells].
+      + reflexivity.
+      + cbn. constructor; [intros [E|[]]; discriminate | constructor; [intros [] | constructor]].
+      + intros k o [E|[E|[]]]; injection E as _ <-; discriminate.
+      + cbn. split; discriminate.
+      + constructor.
+      + intros c [].
+      + intros r k [].
+      + intros r x [].
+      + intros t rng k o [H|H]; apply NoI in H; discriminate.
+      + intros t rng k o H. apply NoI in H; discriminate.
+      + intros t m rest rng k o E H. assert (Im : In (MStore rng k o) (agof (init progs) t)) by (rewrite E; right; exact H).
+        apply NoI in Im; discriminate.
+      + intros t x tag H. apply NoI in H; discriminate.
+      + intros t. destruct (AgI t) as [E|E]; rewrite E; cbn; constructor.
+      + intros t. destruct (AgI t) as [E|E]; rewrite E; [left; eexists; split; reflexivity | right; split; [intros ? [] | exact Logic.I]].
+      + intros t d tag inc H. apply NoI in H; discriminate.
+      + intros t rng k H. apply NoI in H; discriminate.
+    - unfold init. cbn [threads]. apply Forall_forall. intros th Ith. apply in_map_iff in Ith. destruct Ith as (p & <- & Ip).
+      cbn [prog]. rewrite Forall_forall in F. apply F. exact Ip.
+  Qed.
+
+  Theorem reach_inv_grow progs s : Forall (Forall wf_op) progs -> reach (gstep strat shift) (init progs) s -> SInv s.
+  Proof.
+    intros F R. apply (reach_inv (gstep strat shift) SInv (init progs)); [apply init_inv; exact F | | exact R].
+    intros s1 t ch s1' ch' site I1 E. eapply step_inv; eauto.
+  Qed.
+
+  Lemma plan1_ranks i tag m : In m (plan1 strat shift i tag) -> (1 <= rank m)%nat.
+  Proof.
+    unfold plan1, waits1. rewrite !in_app_iff. intros [Im|[Im|Im]].
+    - apply in_map_iff in Im. destruct Im as (k & <- & _). cbn. lia.
+    - apply in_map_iff in Im. destruct Im as (k & <- & _). cbn. lia.
+    - destruct Im as [<-|[]]. cbn. lia.
+  Qed.
+  Lemma planN_ranks i d tag inc m : In m (planN strat shift i d tag inc) -> (1 <= rank m)%nat.
+  Proof.
+    unfold planN, conses. rewrite !in_app_iff. intros [Im|[Im|[Im|Im]]]; apply in_map_iff in Im; destruct Im as (k & <- & _); cbn; lia.
+  Qed.
+
+  (* ------------------------------------------------------------------------------------------------ consequences *)
+  Section Reach.
+    Variable progs : list (list gop).
+    Hypothesis Wf : Forall (Forall wf_op) progs.
+    Local Notation reachable := (reach (gstep strat shift) (init progs)).
+
+    (* fetch_add hands out consecutive, pairwise disjoint ranges that tile [0, size); size = sum of the deltas *)
+    Theorem grow_distinct_indices s : reachable s ->
+      lchain (g_rlog (sh s)) (g_size (sh s)) /\ g_size (sh s) = rtotal (g_rlog (sh s)) /\
+      (forall r r' x, In r (g_rlog (sh s)) -> In r' (g_rlog (sh s)) -> covers r x -> covers r' x -> r = r') /\
+      (forall x, 0 <= x < g_size (sh s) -> exists r, In r (g_rlog (sh s)) /\ covers r x).
+    Proof.
+      intros R. destruct (reach_inv_grow progs s Wf R) as [I _]. pose proof (i_chain _ _ I) as C.
+      split; [exact C|]. split; [apply lchain_total; exact C|]. split.
+      - intros r r' x. apply (lchain_covers_unique _ _ r r' x C).
+      - intros x. apply (lchain_cover_exists _ _ x C).
+    Qed.
+
+    (* buffers are write-once: a step never changes a non-null buffer pointer (so elements never move) *)
+    Theorem grow_pointers_stable_step s t ch s' ch' site k : reachable s -> gstep strat shift s t ch = Some (s', ch', site) ->
+      lookup k (g_bufs (sh s)) <> 0 -> lookup k (g_bufs (sh s')) = lookup k (g_bufs (sh s)).
+    Proof.
+      intros R E NZ. destruct (reach_inv_grow progs s Wf R) as [I _]. unfold gstep in E.
+      destruct (nth_error (threads s) t) as [th|] eqn:N; [|discriminate].
+      destruct (ag th) as [|m rest] eqn:Hag; [discriminate|].
+      destruct (exec strat shift t m (sh s)) as [[[g' pre] rs] site0] eqn:X.
+      injection E as <- _ _. cbn [sh].
+      assert (HA : agof s t = m :: rest) by (unfold agof; rewrite N; exact Hag).
+      destruct m; cbn [exec] in X;
+        try (injection X as <- _ _ _; reflexivity);
+        try (destruct (_ <? _); injection X as <- _ _ _; reflexivity);
+        try (destruct (_ =? _); injection X as <- _ _ _; reflexivity).
+      injection X as <- _ _ _. cbn [g_bufs].
+      assert (H0 : lookup k0 (g_bufs (sh s)) = 0) by (eapply (i_stnull _ _ I t rng k0 owner); rewrite HA; left; reflexivity).
+      apply lookup_cons_other. intros ->. contradiction.
+    Qed.
+
+    Theorem grow_pointers_stable s s2 k : reachable s -> reach (gstep strat shift) s s2 ->
+      lookup k (g_bufs (sh s)) <> 0 -> lookup k (g_bufs (sh s2)) = lookup k (g_bufs (sh s)).
+    Proof.
+      intros R R2 NZ. induction R2 as [|s1 t ch s1' ch' site R1 IH E]; [reflexivity|].
+      rewrite <- IH. eapply grow_pointers_stable_step; eauto.
+      - eapply reach_trans; eauto.
+      - rewrite IH. exact NZ.
+    Qed.
+
+    (* no position is constructed twice; every construction goes into an allocated buffer and writes the tag that the
+       covering reservation assigns to that position *)
+    Theorem grow_no_overwrite s : reachable s ->
+      NoDup (map gc_idx (g_cells (sh s))) /\
+      (forall c, In c (g_cells (sh s)) -> gc_buf c <> 0 /\
+         exists r, In r (g_rlog (sh s)) /\ covers r (gc_idx c) /\ gc_tag c = tag_of r (gc_idx c)).
+    Proof.
+      intros R. destruct (reach_inv_grow progs s Wf R) as [I _]. split; [apply (i_cnodup _ _ I) | apply (i_cok _ _ I)].
+    Qed.
+
+    Lemma finished_agof s t : finished s = true -> agof s t = [].
+    Proof.
+      intros F. unfold agof. destruct (nth_error (threads s) t) as [th|] eqn:N; [|reflexivity].
+      unfold finished in F. rewrite forallb_forall in F. specialize (F th (nth_error_In _ _ N)). destruct (ag th); [reflexivity|discriminate].
+    Qed.
+
+    (* when every thread has returned, exactly the positions [0, size) have been constructed (each once, by grow_no_overwrite) *)
+    Theorem grow_final_exact s : reachable s -> finished s = true ->
+      forall x, 0 <= x < g_size (sh s) <-> In x (map gc_idx (g_cells (sh s))).
+    Proof.
+      intros R F x. destruct (reach_inv_grow progs s Wf R) as [I _]. pose proof (i_chain _ _ I) as C. split.
+      - intros Hx. destruct (lchain_cover_exists _ _ x C Hx) as (r & Hr & Cr).
+        destruct (i_ofill _ _ I r x Hr Cr) as [L|P]; [exact L|]. rewrite finished_agof in P by exact F. destruct P.
+      - intros Ix. apply in_map_iff in Ix. destruct Ix as (c & <- & Ic).
+        destruct (i_cok _ _ I c Ic) as (_ & r & Hr & Cr & _). destruct (lchain_in _ _ _ C Hr) as (A0 & _ & En). unfold covers in Cr. lia.
+    Qed.
+
+    (* a thread that spins on a null buffer pointer is never alone: another thread, whose next step is a non-blocking
+       load or store of the allocation phase, is committed to storing exactly that pointer *)
+    Theorem grow_wait_progress s t rng k rest : reachable s ->
+      agof s t = MWait rng k :: rest -> lookup k (g_bufs (sh s)) = 0 ->
+      exists t' m' rest', t' <> t /\ agof s t' = m' :: rest' /\ (rank m' = 1 \/ rank m' = 2)%nat /\ pendingA k (agof s t').
+    Proof.
+      intros R HA HN. destruct (reach_inv_grow progs s Wf R) as [I _]. pose proof (i_chain _ _ I) as C.
+      destruct (i_waitj _ _ I t rng k ltac:(rewrite HA; left; reflexivity)) as (K0 & Ks).
+      destruct (i_b01 _ _ I) as [B0 _].
+      assert (Hk : 1 <= k) by (destruct (Z.eq_dec k 0) as [->|]; [contradiction | lia]).
+      pose proof (g_trigger_bounds strat shift k Hs Hk) as TB. pose proof (g_trigger_nonneg strat shift k Hs Hk) as TN.
+      destruct (lchain_cover_exists _ _ (trigger strat shift k) C ltac:(lia)) as (r & Hr & Cr).
+      destruct (i_oalloc _ _ I r k Hr Hk Cr) as [L|P]; [contradiction|].
+      pose proof (i_shape _ _ I t) as Sht. rewrite HA in Sht.
+      assert (Nt : r_tid r <> t).
+      { intros Et. rewrite Et, HA in P. destruct P as (rng' & o' & [[E|P]|[E|P]]); try discriminate E.
+        - pose proof (shape_head_le _ _ _ Sht (or_intror P)) as Le. cbn in Le. lia.
+        - pose proof (shape_head_le _ _ _ Sht (or_intror P)) as Le. cbn in Le. lia. }
+      destruct (agof s (r_tid r)) as [|m' rest'] eqn:Ea.
+      { destruct P as (rng' & o' & [[]|[]]). }
+      exists (r_tid r), m', rest'. split; [exact Nt|]. split; [exact Ea|]. split; [|rewrite Ea; exact P].
+      pose proof (i_shape _ _ I (r_tid r)) as Sh'. rewrite Ea in Sh'.
+      destruct P as (rng' & o' & [P|P]).
+      - pose proof (shape_head_le _ _ _ Sh' P) as Le. cbn in Le.
+        destruct Sh' as [[m0 [E R0]]|[Pr _]].
+        + injection E as -> ->. destruct P as [EP|[]]. rewrite EP in R0. cbn in R0. discriminate.
+        + specialize (Pr m' (or_introl eq_refl)). lia.
+      - pose proof (shape_head_le _ _ _ Sh' P) as Le. cbn in Le.
+        destruct Sh' as [[m0 [E R0]]|[Pr _]].
+        + injection E as -> ->. destruct P as [EP|[]]. rewrite EP in R0. cbn in R0. discriminate.
+        + specialize (Pr m' (or_introl eq_refl)). lia.
+    Qed.
+    (* consequently, as long as some thread has not returned, some thread can take a step that is not a failed spin *)
+    Theorem grow_some_thread_progresses s : reachable s -> finished s = false ->
+      exists t m rest, agof s t = m :: rest /\ (forall rng k, m = MWait rng k -> lookup k (g_bufs (sh s)) <> 0).
+    Proof.
+      intros R F.
+      assert (Ex : exists t m rest, agof s t = m :: rest).
+      { unfold finished in F. unfold agof.
+        assert (G : forall l, forallb (fun th => match ag th with [] => true | _ => false end) l = false ->
+                      exists t th m rest, nth_error l t = Some th /\ ag th = m :: rest).
+        { induction l as [|a l IH]; cbn [forallb]; [discriminate|]. destruct (ag a) as [|m rest] eqn:Ea; cbn [andb].
+          - intros H. destruct (IH H) as (t & th & m & rest & N & E). exists (S t), th, m, rest. auto.
+          - intros _. exists 0%nat, a, m, rest. auto. }
+        destruct (G _ F) as (t & th & m & rest & N & E). exists t, m, rest. rewrite N. exact E. }
+      destruct Ex as (t & m & rest & HA).
+      destruct m; try (exists t; eexists; eexists; split; [exact HA | intros; discriminate]).
+      destruct (Z.eq_dec (lookup k (g_bufs (sh s))) 0) as [Z0|NZ].
+      - destruct (grow_wait_progress s t rng k rest R HA Z0) as (t' & m' & rest' & _ & HA' & Rk & _).
+        exists t', m', rest'. split; [exact HA'|]. intros rng' k' E. subst m'. cbn in Rk. destruct Rk; discriminate.
+      - exists t, (MWait rng k), rest. split; [exact HA|]. intros rng' k' E. injection E as _ <-. exact NZ.
+    Qed.
+  End Reach.
+End Invariant.
+
+(* ------------------------------------------------------------------------------------------------ final size = total growth of the programs *)
+Definition op_delta (o : gop) : Z := match o with GPush _ => 1 | GGrow d _ _ => d | GGrowTo _ _ => 0 end.
+Definition mop_delta (m : mop) : Z := match m with MFetch1 _ => 1 | MFetchN d _ _ => d | _ => 0 end.
+Definition zsum (l : list Z) : Z := fold_right Z.add 0 l.
+Definition pend_th (th : thread) : Z := zsum (map mop_delta (ag th)) + zsum (map op_delta (prog th)).
+Definition no_growto (o : gop) : Prop := match o with GGrowTo _ _ => False | _ => True end.
+Definition no_sizeload (m : mop) : Prop := match m with MSizeLoad _ _ => False | _ => True end.
+Definition static_total (progs : list (list gop)) : Z := zsum (map (fun p => zsum (map op_delta p)) progs).
+
+Lemma zsum_app a b : zsum (a ++ b) = zsum a + zsum b.
+Proof. unfold zsum. induction a as [|x a IH]; cbn [app fold_right]; lia. Qed.
+
+Lemma zsum_set_nth (f : thread -> Z) l t th th' : nth_error l t = Some th ->
+  zsum (map f (set_nth l t th')) = zsum (map f l) - f th + f th'.
+Proof.
+  revert t; induction l as [|a l IH]; intros [|t] N; cbn in N; try discriminate.
+  - injection N as ->. cbn [set_nth map zsum fold_right]. lia.
+  - cbn [set_nth map]. unfold zsum in *. cbn [fold_right]. rewrite (IH _ N). lia.
+Qed.
+
+Lemma zsum_zero l : (forall x, In x l -> x = 0) -> zsum l = 0.
+Proof. unfold zsum. induction l as [|x l IH]; intros H; cbn [fold_right]; [reflexivity|]. rewrite (H x (or_introl eq_refl)), IH; [reflexivity|]. intros y Iy; apply H; right; exact Iy. Qed.
+
+Lemma mdelta_ranked l : (forall m, In m l -> (1 <= rank m)%nat) -> zsum (map mop_delta l) = 0.
+Proof.
+  intros H. apply zsum_zero. intros x Ix. apply in_map_iff in Ix. destruct Ix as (m & <- & Im). specialize (H m Im).
+  destruct m; cbn in *; try reflexivity; lia.
+Qed.
+
+Section StaticSize.
+  Variable strat shift : Z.
+  Definition QInv (total : Z) (s : state) : Prop :=
+    g_size (sh s) + zsum (map pend_th (threads s)) = total /\
+    Forall (fun th => Forall no_growto (prog th) /\ Forall no_sizeload (ag th) /\ (ag th = [] -> prog th = [])) (threads s).
+
+  Lemma qstep total s t ch s' ch' site : QInv total s -> gstep strat shift s t ch = Some (s', ch', site) -> QInv total s'.
+  Proof.
+    intros [Q W] E. unfold gstep in E.
+    destruct (nth_error (threads s) t) as [th|] eqn:N; [|discriminate].
+    destruct (ag th) as [|m rest] eqn:Hag; [discriminate|].
+    destruct (exec strat shift t m (sh s)) as [[[g' pre] rs] site0] eqn:X.
+    injection E as <- _ _. cbn [sh threads].
+    assert (Wth : Forall no_growto (prog th) /\ Forall no_sizeload (ag th) /\ (ag th = [] -> prog th = [])) by (rewrite Forall_forall in W; apply W; eapply nth_error_In; eauto).
+    destruct Wth as (Wp & Wa & _). rewrite Hag in Wa. inversion Wa as [|? ? Wm Wrest]; subst.
+    (* effect of the micro-operation on size + pending of this thread *)
+    assert (K : g_size g' + zsum (map mop_delta (pre ++ rest)) = g_size (sh s) + mop_delta m + zsum (map mop_delta rest) /\ Forall no_sizeload pre).
+    { rewrite map_app, zsum_app. destruct m; cbn [exec] in X; cbn [no_sizeload] in Wm; try contradiction.
+      - injection X as <- <- _ _. cbn. split; [lia | constructor].
+      - injection X as <- <- _ _. cbn [g_size mop_delta]. rewrite (mdelta_ranked _ (plan1_ranks strat shift _ _)). split; [lia|].
+        apply Forall_forall. intros m Im. apply plan1_ranks in Im. destruct m; cbn in *; try exact I; lia.
+      - injection X as <- <- _ _. cbn [g_size mop_delta]. rewrite (mdelta_ranked _ (planN_ranks strat shift _ _ _ _)). split; [lia|].
+        apply Forall_forall. intros m Im. apply planN_ranks in Im. destruct m; cbn in *; try exact I; lia.
+      - injection X as <- <- _ _. cbn. split; [lia | constructor].
+      - destruct (_ =? _); injection X as <- <- _ _; cbn; (split; [lia | repeat constructor]).
+      - injection X as <- <- _ _. cbn. split; [lia | constructor].
+      - destruct (_ =? _); injection X as <- <- _ _; cbn; (split; [lia | repeat constructor]).
+      - injection X as <- <- _ _. cbn. split; [lia | constructor]. }
+    destruct K as [K Kp].
+    set (th0 := TH (pre ++ rest) (prog th) (rev rs ++ res th)).
+    assert (Nm : pend_th (norm th0) = pend_th th0 /\ Forall no_growto (prog (norm th0)) /\ Forall no_sizeload (ag (norm th0)) /\
+                 (ag (norm th0) = [] -> prog (norm th0) = [])).
+    { unfold norm, th0. cbn [ag prog res]. destruct (pre ++ rest) as [|m0 a0] eqn:Ea.
+      - destruct (prog th) as [|o p] eqn:Ep.
+        + cbn [ag prog]. try rewrite Ea. split; [reflexivity|]. split; [constructor|]. split; [constructor | reflexivity].
+        + inversion Wp as [|? ? Wo Wp']; subst. unfold pend_th. cbn [ag prog map]. try rewrite Ea.
+          split; [|split; [exact Wp'|split]].
+          * destruct o; cbn [no_growto] in Wo; try contradiction; unfold zsum; cbn [entry map mop_delta op_delta fold_right]; lia.
+          * destruct o; cbn in *; try contradiction; repeat constructor.
+          * destruct o; cbn; discriminate.
+      - cbn [ag prog]. try rewrite Ea. split; [reflexivity|]. split; [exact Wp|]. split; [|discriminate]. try rewrite <- Ea. apply Forall_app. split; assumption. }
+    destruct Nm as (Nm & Np & Na & Ne).
+    split.
+    - cbn [sh threads]. rewrite (zsum_set_nth pend_th _ _ _ _ N), Nm. unfold pend_th at 2 3. unfold th0. cbn [ag prog]. rewrite Hag. cbn [map zsum fold_right].
+      unfold zsum in *. cbn [fold_right] in *. lia.
+    - cbn [sh threads]. apply Forall_set_nth'; [exact W | split; [|split]; assumption].
+  Qed.
+
+  Lemma qinit progs : Forall (Forall no_growto) progs -> QInv (static_total progs) (init progs).
+  Proof.
+    intros F. split.
+    - unfold init, static_total. cbn [sh threads init_shared g_size]. rewrite map_map.
+      induction progs as [|p progs IH]; [reflexivity|]. inversion F; subst. cbn [map]. unfold zsum in *. cbn [fold_right].
+      unfold pend_th at 1. cbn [ag prog map mop_delta fold_right]. specialize (IH ltac:(assumption)). unfold zsum. cbn [fold_right]. lia.
+    - unfold init. cbn [threads]. apply Forall_forall. intros th Ith. apply in_map_iff in Ith. destruct Ith as (p & <- & Ip).
+      cbn [prog ag]. rewrite Forall_forall in F. split; [apply F; exact Ip | split; [repeat constructor | discriminate]].
+  Qed.
+
+  (* programs without grow_to_at_least: when every thread has returned, size = total growth of all calls *)
+  Theorem grow_final_size progs s : Forall (Forall no_growto) progs -> reach (gstep strat shift) (init progs) s ->
+    finished s = true -> g_size (sh s) = static_total progs.
+  Proof.
+    intros F R Fin.
+    assert (Q : QInv (static_total progs) s).
+    { apply (reach_inv (gstep strat shift) (QInv (static_total progs)) (init progs)); [apply qinit; exact F | | exact R].
+      intros s1 t ch s1' ch' site Q1 E. eapply qstep; eauto. }
+    destruct Q as [Q W]. rewrite <- Q.
+    assert (Z0 : zsum (map pend_th (threads s)) = 0); [|lia].
+    apply zsum_zero. intros x Ix. apply in_map_iff in Ix. destruct Ix as (th & <- & Ith).
+    rewrite Forall_forall in W. destruct (W th Ith) as (_ & _ & Ne).
+    unfold finished in Fin. rewrite forallb_forall in Fin. specialize (Fin th Ith).
+    destruct (ag th) as [|m a] eqn:Ea; [|discriminate]. unfold pend_th. rewrite Ea, (Ne eq_refl). reflexivity.
+  Qed.
+End StaticSize.
